@@ -157,6 +157,11 @@ class EqT(EqS):
   """Subclass of the opted-in class."""
 
 
+@pg.members([('x', pg.typing.Any(default=None)), (pg.typing.StrKey(), pg.typing.Any())])
+class EqKw(pg.Object):
+  """Class with free-form (dynamic) keys: their iteration order is the insertion order."""
+
+
 @pg.members([('units', pg.typing.Int()), ('act', pg.typing.Str())])
 class Layer(pg.Object):
   """C13: element evolved by pg.evolve."""
